@@ -330,6 +330,54 @@ def guarded_index(sink, taint):
     return all(any(lit_ok(at, v) for (at, v) in c) for c in dnf)
 
 
+def guarded_from_bytes(sink, taint):
+    """goblin ProgramHeader::from_bytes(bytes, count) panics unless bytes holds count whole headers: every path to the call must
+    carry len(bytes) == count * SIZEOF (or >=), SIZEOF being the header size of the ELF class in the callee's path"""
+    if len(sink.ops) < 2:
+        return False
+    body = sink.body
+    o = taint.origin(body)
+    t = body.term(sink.block)
+    name = (CalleeView(t["callee"]).target or CalleeView(t["callee"]).short or "")
+    size = 56 if "elf64" in name else (32 if "elf32" in name else None)
+    if size is None:
+        return False
+    data, count = sink.ops[0], sink.ops[1]
+
+    def is_len_of_data(e):
+        e = core(e)
+        inner = e[1] if e[0] == "len" else (e[2][0] if e[0] == "call" and lastseg(e[1]) == "len" and e[2] else None)
+        return inner is not None and _same(inner, data)
+
+    def is_count_times(e):
+        e = core(e)
+        while e[0] == "call" and lastseg(e[1]) in ("ok_or", "ok_or_else", "unwrap_or") and e[2]:
+            e = core(e[2][0])
+        parts = None
+        if e[0] == "call" and lastseg(e[1]) in ("checked_mul", "saturating_mul") and len(e[2]) == 2:
+            parts = [core(e[2][0]), core(e[2][1])]
+        elif e[0] == "bin" and e[1] == "Mul":
+            parts = [core(e[2]), core(e[3])]
+        if not parts:
+            return False
+        for x, y in ((parts[0], parts[1]), (parts[1], parts[0])):
+            if is_const(x) and x[1] >= size and _same(y, count):
+                return True
+        return False
+    dnf = conditions(body, sink.block, origin=o, relevant=lambda at: at[0] == "bin" and at[1] in ("Eq", "Ne", "Lt", "Le", "Gt", "Ge"))
+    if not dnf:
+        return False
+
+    def lit_ok(at, v):
+        op, x, y = at[1], at[2], at[3]
+        if is_len_of_data(x) and is_count_times(y):
+            return (op == "Eq" and v == 1) or (op == "Ne" and v == 0) or (op == "Ge" and v == 1) or (op == "Lt" and v == 0)
+        if is_len_of_data(y) and is_count_times(x):
+            return (op == "Eq" and v == 1) or (op == "Ne" and v == 0) or (op == "Le" and v == 1) or (op == "Gt" and v == 0)
+        return False
+    return all(any(lit_ok(at, v) for (at, v) in c) for c in dnf)
+
+
 def guarded_unwrap(sink, taint):
     """unwrap/expect on x is safe when every path carries is_some(x)/is_ok(x) or discr(x) == Some/Ok"""
     x = sink.ops[0]
